@@ -9,6 +9,7 @@ import Mathlib.Tactic.Ring
 import Mathlib.Tactic.Linarith
 import Mathlib.Tactic.FieldSimp
 import Mathlib.Tactic.Positivity
+import Mathlib.Tactic.LinearCombination
 import Mathlib.Algebra.Order.Field.Basic
 import Mathlib.Data.List.Perm.Basic
 
@@ -393,5 +394,572 @@ example : noiseVarDiag [0, 1, 0, 1] 1
     (⟨[(1, true), (1/2, true), (0, false), (1, true)],
       [(1/2, true), (1/8, true), (0, false), (1/2, true)], [1/4, 1/16, 1/4, 1/4]⟩ : NoiseIn Rat) = 5/32 := by
   decide +kernel
+
+/-! ### 5. mixture rules (`compute_ind_param_*_mixture*`, attached in `models/mixture.py`)
+
+`r` = one cluster's responsibilities over the individuals (`probs_ind[:, c]`), `x` = one coordinate of a latent
+variable over the individuals (`tau[:, 0]`, `sources[:, j]`). -/
+
+private theorem sum_zipWith_lin (c : α) (r x : List α) (h : r.length = x.length) :
+    MStep.sum (List.zipWith (fun ri xi => ri * (xi - c)) r x) = dot r x - c * MStep.sum r := by
+  unfold dot
+  induction r generalizing x with
+  | nil => cases x <;> simp_all [MStep.sum]
+  | cons a r ih =>
+    cases x with
+    | nil => simp at h
+    | cons b x =>
+      simp only [List.length_cons, Nat.add_right_cancel_iff] at h
+      simp only [List.zipWith_cons_cons, sum_cons, ih x h]; ring
+
+private theorem wsqdev_expand (c : α) (r x : List α) (h : r.length = x.length) :
+    wsqdev r x c = dot r (x.map (fun xi => xi * xi)) - 2 * c * dot r x + c * c * MStep.sum r := by
+  unfold wsqdev dot
+  induction r generalizing x with
+  | nil => cases x <;> simp_all [MStep.sum]
+  | cons a r ih =>
+    cases x with
+    | nil => simp at h
+    | cons b x =>
+      simp only [List.length_cons, Nat.add_right_cancel_iff] at h
+      simp only [List.map_cons, List.zipWith_cons_cons, sum_cons, ih x h]; ring
+
+private theorem dot_bounds (lo hi : α) (r x : List α) (h : r.length = x.length)
+    (hr : ∀ ri ∈ r, 0 ≤ ri) (hx : ∀ xi ∈ x, lo ≤ xi ∧ xi ≤ hi) :
+    lo * MStep.sum r ≤ dot r x ∧ dot r x ≤ hi * MStep.sum r := by
+  unfold dot
+  induction r generalizing x with
+  | nil => cases x <;> simp_all [MStep.sum]
+  | cons a r ih =>
+    cases x with
+    | nil => simp at h
+    | cons b x =>
+      simp only [List.length_cons, Nat.add_right_cancel_iff] at h
+      have ha : 0 ≤ a := hr a List.mem_cons_self
+      have hb := hx b List.mem_cons_self
+      have := ih x h (fun y hy => hr y (List.mem_cons_of_mem _ hy)) (fun y hy => hx y (List.mem_cons_of_mem _ hy))
+      simp only [List.zipWith_cons_cons, sum_cons]
+      constructor
+      · nlinarith [mul_le_mul_of_nonneg_left hb.1 ha, this.1]
+      · nlinarith [mul_le_mul_of_nonneg_left hb.2 ha, this.2]
+
+private theorem sum_map_mul_right (s : α) (r : List α) : MStep.sum (r.map (fun ri => ri * s)) = MStep.sum r * s := by
+  induction r with
+  | nil => simp [MStep.sum]
+  | cons a r ih => simp only [List.map_cons, sum_cons, ih]; ring
+
+private theorem sum_zipWith_const (ρ : α) (f : α → α) (r x : List α) (h : r.length = x.length) (hr : ∀ ri ∈ r, ri = ρ) :
+    MStep.sum (List.zipWith (fun ri xi => ri * f xi) r x) = ρ * MStep.sum (x.map f) := by
+  induction r generalizing x with
+  | nil => cases x <;> simp_all [MStep.sum]
+  | cons a r ih =>
+    cases x with
+    | nil => simp at h
+    | cons b x =>
+      simp only [List.length_cons, Nat.add_right_cancel_iff] at h
+      simp only [List.zipWith_cons_cons, List.map_cons, sum_cons, ih x h (fun y hy => hr y (List.mem_cons_of_mem _ hy)),
+        hr a List.mem_cons_self]; ring
+
+private theorem sum_const (ρ : α) (r : List α) (hr : ∀ ri ∈ r, ri = ρ) : MStep.sum r = ρ * (r.length : α) := by
+  induction r with
+  | nil => simp [MStep.sum]
+  | cons a r ih =>
+    rw [sum_cons, ih (fun y hy => hr y (List.mem_cons_of_mem _ hy)), hr a List.mem_cons_self, List.length_cons]
+    push_cast; ring
+
+private theorem sum_pos_of (xs : List α) (hne : xs ≠ []) (h : ∀ x ∈ xs, 0 < x) : 0 < MStep.sum xs := by
+  cases xs with
+  | nil => exact absurd rfl hne
+  | cons x xs =>
+    rw [sum_cons]
+    exact add_pos_of_pos_of_nonneg (h x List.mem_cons_self)
+      (sum_nonneg_of xs fun y hy => le_of_lt (h y (List.mem_cons_of_mem _ hy)))
+
+/-- **First-order condition**: the responsibility-weighted deviations from the mixture mean cancel. -/
+theorem mixMean_first_order (r x : List α) (h : r.length = x.length) (hR : MStep.sum r ≠ 0) :
+    MStep.sum (List.zipWith (fun ri xi => ri * (xi - mixMean r x)) r x) = 0 := by
+  rw [sum_zipWith_lin _ r x h]
+  unfold mixMean
+  field_simp
+  ring
+
+/-- **Algebraic identity** behind the minimisation: the weighted squared deviation from any centre `c` is the one from
+    the mixture mean plus `(total responsibility) · (mean − c)²`. -/
+theorem mixMean_sqdev_identity (r x : List α) (c : α) (h : r.length = x.length) (hR : MStep.sum r ≠ 0) :
+    wsqdev r x c = wsqdev r x (mixMean r x) + MStep.sum r * ((mixMean r x - c) * (mixMean r x - c)) := by
+  have hm : mixMean r x * MStep.sum r = dot r x := by unfold mixMean; field_simp
+  rw [wsqdev_expand c r x h, wsqdev_expand (mixMean r x) r x h]
+  linear_combination (2 * c - 2 * mixMean r x) * hm
+
+/-- The mixture mean rule is the **minimiser** of the responsibility-weighted squared deviation (the closed-form
+    maximiser of the complete-data likelihood in the cluster mean) as soon as the responsibilities are non-negative
+    with a positive total. -/
+theorem mixMean_minimises (r x : List α) (c : α) (h : r.length = x.length) (hR : 0 < MStep.sum r) :
+    wsqdev r x (mixMean r x) ≤ wsqdev r x c := by
+  rw [mixMean_sqdev_identity r x c h (ne_of_gt hR)]
+  have : 0 ≤ MStep.sum r * ((mixMean r x - c) * (mixMean r x - c)) :=
+    mul_nonneg (le_of_lt hR) (mul_self_nonneg _)
+  linarith
+
+/-- … and the unique one: any other centre is strictly worse. -/
+theorem mixMean_unique_minimiser (r x : List α) (c : α) (h : r.length = x.length) (hR : 0 < MStep.sum r)
+    (hc : wsqdev r x c ≤ wsqdev r x (mixMean r x)) : c = mixMean r x := by
+  rw [mixMean_sqdev_identity r x c h (ne_of_gt hR)] at hc
+  have h0 : MStep.sum r * ((mixMean r x - c) * (mixMean r x - c)) ≤ 0 := by linarith
+  have h1 : (mixMean r x - c) * (mixMean r x - c) ≤ 0 := by
+    by_contra hpos
+    have := mul_pos hR (lt_of_not_ge hpos)
+    linarith
+  have h2 : mixMean r x - c = 0 := by
+    have := mul_self_nonneg (mixMean r x - c)
+    exact mul_self_eq_zero.mp (le_antisymm h1 this)
+  linarith
+
+/-- **Convex hull**: with non-negative responsibilities of positive total, the mixture mean lies between the smallest
+    and the largest latent value. -/
+theorem mixMean_in_hull (lo hi : α) (r x : List α) (h : r.length = x.length)
+    (hr : ∀ ri ∈ r, 0 ≤ ri) (hR : 0 < MStep.sum r) (hx : ∀ xi ∈ x, lo ≤ xi ∧ xi ≤ hi) :
+    lo ≤ mixMean r x ∧ mixMean r x ≤ hi := by
+  have hb := dot_bounds lo hi r x h hr hx
+  unfold mixMean
+  exact ⟨(le_div_iff₀ hR).mpr hb.1, (div_le_iff₀ hR).mpr hb.2⟩
+
+/-- The documented (responsibility-weighted) dispersion is non-negative. -/
+theorem mixVarDoc_nonneg (r x : List α) (c : α) (hr : ∀ ri ∈ r, 0 ≤ ri) : 0 ≤ mixVarDoc r x c := by
+  unfold mixVarDoc wsqdev
+  apply div_nonneg _ (sum_nonneg_of r hr)
+  apply sum_nonneg_of
+  intro y hy
+  obtain ⟨i, hi, rfl⟩ := List.getElem_of_mem hy
+  simp only [List.getElem_zipWith]
+  exact mul_nonneg (hr _ (List.getElem_mem _)) (mul_self_nonneg _)
+
+/-- **What the std rule computes** (after the memory-less phase, statistics of the current latent values): the code's
+    variance for cluster `c` is the *unweighted* mean, over **all** individuals, of the squared deviations from the
+    **pre-step** mean of cluster `c` — the responsibilities do not enter. -/
+theorem mixVar_eq_meansq (μc : α) (xs : List α) (hne : xs ≠ []) :
+    mixVar μc xs (xs.map (fun x => x * x)) = mean (xs.map (fun x => (x - μc) * (x - μc))) :=
+  indVar_eq_meansq μc xs hne
+
+/-- … hence non-negative. -/
+theorem mixVar_nonneg (μc : α) (xs : List α) (hne : xs ≠ []) : 0 ≤ mixVar μc xs (xs.map (fun x => x * x)) :=
+  indVar_nonneg μc xs hne
+
+/-- The last line of both std rules, `(probs_ind * std).sum(0) / probs_ind.sum(0)` with `std` constant over the
+    individuals, is the identity: the responsibility weights **cancel** whenever the cluster's total is non-zero. -/
+theorem mixAvgConst_cancels (r : List α) (s : α) (hR : MStep.sum r ≠ 0) : mixAvgConst r s = s := by
+  unfold mixAvgConst
+  rw [sum_map_mul_right]
+  field_simp
+
+/-- **Deviation from the documented closed form — witness.**  Two well separated groups `x = 0,0,10,10`, hard
+    responsibilities for cluster 1 `r = 1,1,0,0`, pre-step mean `0`: the dispersion of the cluster (documented form) is
+    `0`, the code's variance is `50` (and the value finally stored, `mixAvgConst r (sqrt 50)`, is `sqrt 50`). -/
+theorem mixVar_not_weighted_counterexample :
+    let r : List Rat := [1, 1, 0, 0]
+    let x : List Rat := [0, 0, 10, 10]
+    mixVar 0 x (x.map (fun v => v * v)) = 50 ∧ mixVarDoc r x 0 = 0 ∧ mixStdVarE r (mixVar 0 x (x.map (fun v => v * v))) = .ok 50 := by
+  decide +kernel
+
+/-- **… and the exact guard under which the code is right**: when all individuals carry the *same* responsibility for
+    the cluster (in particular with a single cluster), the code's variance is the responsibility-weighted dispersion
+    about the pre-step cluster mean. -/
+theorem mixVar_weighted_partial (ρ μc : α) (r xs : List α) (h : r.length = xs.length) (hne : xs ≠ [])
+    (hρ : ρ ≠ 0) (hr : ∀ ri ∈ r, ri = ρ) :
+    mixVar μc xs (xs.map (fun x => x * x)) = mixVarDoc r xs μc := by
+  have hn : (xs.length : α) ≠ 0 := ne_of_gt (length_cast_pos xs hne)
+  rw [mixVar_eq_meansq μc xs hne]
+  unfold mixVarDoc wsqdev mean
+  rw [sum_zipWith_const ρ (fun xi => (xi - μc) * (xi - μc)) r xs h hr, sum_const ρ r hr, h, List.length_map]
+  field_simp
+
+/-- The code's variance minus the documented one, in general: `Σ_i (1/n − r_i/R) (x_i − μ_c)²`. -/
+theorem mixVar_minus_doc (μc : α) (r xs : List α) (h : r.length = xs.length) (hne : xs ≠ []) (hR : MStep.sum r ≠ 0) :
+    mixVar μc xs (xs.map (fun x => x * x)) - mixVarDoc r xs μc
+      = MStep.sum (List.zipWith (fun ri xi => (1 / (xs.length : α) - ri / MStep.sum r) * ((xi - μc) * (xi - μc))) r xs) := by
+  have hn : (xs.length : α) ≠ 0 := ne_of_gt (length_cast_pos xs hne)
+  rw [mixVar_eq_meansq μc xs hne]
+  unfold mixVarDoc wsqdev mean
+  rw [List.length_map]
+  generalize MStep.sum r = R at hR ⊢
+  generalize (xs.length : α) = n at hn ⊢
+  have key : ∀ (r xs : List α), r.length = xs.length →
+      MStep.sum (List.zipWith (fun ri xi => (1 / n - ri / R) * ((xi - μc) * (xi - μc))) r xs)
+        = MStep.sum (xs.map (fun x => (x - μc) * (x - μc))) / n
+          - MStep.sum (List.zipWith (fun ri xi => ri * ((xi - μc) * (xi - μc))) r xs) / R := by
+    intro r xs h
+    induction r generalizing xs with
+    | nil => cases xs <;> simp_all [MStep.sum]
+    | cons a r ih =>
+      cases xs with
+      | nil => simp at h
+      | cons b xs =>
+        simp only [List.length_cons, Nat.add_right_cancel_iff] at h
+        simp only [List.zipWith_cons_cons, List.map_cons, sum_cons, ih xs h]
+        field_simp
+        ring
+  rw [key r xs h]
+
+/-- **Single cluster**: with responsibilities all `1` the mixture mean rule is the non-mixture rule `indMean`. -/
+theorem mixMean_single_cluster (r x : List α) (h : r.length = x.length) (hr : ∀ ri ∈ r, ri = 1) :
+    mixMean r x = indMean x := by
+  unfold mixMean indMean mean dot
+  have := sum_zipWith_const 1 (fun xi => xi) r x h hr
+  simp only [List.map_id'] at this
+  rw [this, sum_const 1 r hr, h]
+  simp
+
+/-- … the std rule computes the non-mixture variance `indVar` (same operations in the same order), in the memory-less
+    phase the Bessel-corrected `indVarBurnIn` (used verbatim by `MixRule.apply`), and the final weighting returns it
+    unchanged (`mixAvgConst_cancels`; the total responsibility is `n ≠ 0`). -/
+theorem mixVar_single_cluster (μ : α) (xs xsqr : List α) : mixVar μ xs xsqr = indVar μ xs xsqr := rfl
+
+theorem mixAvgConst_single_cluster (r : List α) (s : α) (hne : r ≠ []) (hr : ∀ ri ∈ r, ri = 1) : mixAvgConst r s = s := by
+  apply mixAvgConst_cancels
+  rw [sum_const 1 r hr, one_mul]
+  exact ne_of_gt (length_cast_pos r hne)
+
+/-- … except for the collapse guard: whatever the non-mixture rule accepts (`variance ≥ tol > 0`) the mixture rule returns
+    unchanged, but the mixture rule also accepts any variance in `[0, tol)` where `compute_std_from_variance` raises
+    `LeaspyConvergenceError` (the `tol` keyword of `for_ind_std_mixture` ends in `**kws`). -/
+theorem mixStdVarE_of_guard (tol v : α) (r : List α) (htol : 0 ≤ tol) (hR : MStep.sum r ≠ 0)
+    (hg : guardVar tol [v] = .ok [v]) : mixStdVarE r v = .ok v := by
+  unfold guardVar at hg
+  simp only [List.any_cons, List.any_nil, Bool.or_false, decide_eq_true_eq] at hg
+  split at hg
+  · cases hg
+  · rename_i hlt
+    unfold mixStdVarE
+    have : ¬ v < 0 := fun h0 => hlt (lt_of_lt_of_le h0 htol)
+    simp [this, hR]
+
+theorem mixStd_no_collapse_guard :
+    guardVar (1/100000 : Rat) [0] = .error .convergence ∧ mixStdVarE ([1, 1] : List Rat) 0 = .ok 0 := by
+  decide +kernel
+
+/-! #### responsibilities and probabilities -/
+
+private theorem colSums_getElem? (K : Nat) (rows : List (List α)) (h : ∀ r ∈ rows, r.length = K) (c : Nat) (hc : c < K) :
+    (colSums K rows)[c]? = some (MStep.sum (rows.filterMap (fun r => r[c]?))) := by
+  induction rows with
+  | nil => simp [colSums, MStep.sum, hc]
+  | cons r rows ih =>
+    have hrest := ih (fun r' hr => h r' (List.mem_cons_of_mem _ hr))
+    have hr : c < r.length := by rw [h r List.mem_cons_self]; exact hc
+    simp only [colSums, List.foldr_cons] at hrest ⊢
+    rw [List.getElem?_zipWith, hrest, List.getElem?_eq_getElem hr]
+    simp [List.getElem?_eq_getElem hr, sum_cons]
+
+private theorem softmaxRow_mem (w : List α) (hw : ∀ e ∈ w, 0 ≤ e) (hs : 0 < MStep.sum w) :
+    ∀ p ∈ softmaxRow w, 0 ≤ p ∧ p ≤ 1 := by
+  intro p hp
+  unfold softmaxRow at hp
+  simp only [List.mem_map] at hp
+  obtain ⟨e, he, rfl⟩ := hp
+  refine ⟨div_nonneg (hw e he) (le_of_lt hs), (div_le_one hs).mpr ?_⟩
+  clear hs
+  induction w with
+  | nil => simp at he
+  | cons a w ih =>
+    rw [sum_cons]
+    have hrest := sum_nonneg_of w (fun y hy => hw y (List.mem_cons_of_mem _ hy))
+    rcases List.mem_cons.mp he with rfl | he'
+    · linarith
+    · have := ih (fun y hy => hw y (List.mem_cons_of_mem _ hy)) he'
+      have := hw a List.mem_cons_self
+      linarith
+
+/-- Every responsibility lies in `[0, 1]` (non-negative exponentials, positive row sums). -/
+theorem resp_in_unit (expo : List (List α)) (hnn : ∀ w ∈ expo, ∀ e ∈ w, 0 ≤ e) (hpos : ∀ w ∈ expo, 0 < MStep.sum w) :
+    ∀ row ∈ resp expo, ∀ p ∈ row, 0 ≤ p ∧ p ≤ 1 := by
+  intro row hrow p hp
+  unfold resp at hrow
+  simp only [List.mem_map] at hrow
+  obtain ⟨w, hw, rfl⟩ := hrow
+  exact softmaxRow_mem w (hnn w hw) (hpos w hw) p hp
+
+private theorem filterMap_col_length (K : Nat) (rows : List (List α)) (h : ∀ r ∈ rows, r.length = K) (c : Nat) (hc : c < K) :
+    (rows.filterMap (fun row => row[c]?)).length = rows.length := by
+  induction rows with
+  | nil => rfl
+  | cons r rows ih =>
+    have hr : c < r.length := by rw [h r List.mem_cons_self]; exact hc
+    simp [List.getElem?_eq_getElem hr, ih (fun r' hr' => h r' (List.mem_cons_of_mem _ hr'))]
+
+private theorem resp_row_length (K : Nat) (expo : List (List α)) (hK : ∀ w ∈ expo, w.length = K) :
+    ∀ row ∈ resp expo, row.length = K := by
+  intro row hrow
+  unfold resp at hrow
+  simp only [List.mem_map] at hrow
+  obtain ⟨w, hw, rfl⟩ := hrow
+  simp [softmaxRow, hK w hw]
+
+/-- **Probabilities = mean responsibilities**: entry `c` of `compute_probs_from_state` is the mean over the individuals
+    of the responsibilities for cluster `c`. -/
+theorem mixtureProbs_eq_mean_resp (K : Nat) (expo : List (List α)) (hK : ∀ w ∈ expo, w.length = K) (c : Nat) (hc : c < K) :
+    (mixtureProbs K expo)[c]? = some (mean ((resp expo).filterMap (fun row => row[c]?))) := by
+  have hK' := resp_row_length K expo hK
+  have hlen := filterMap_col_length K (resp expo) hK' c hc
+  unfold mixtureProbs mean
+  rw [List.getElem?_map, show expo.map softmaxRow = resp expo from rfl, colSums_getElem? K (resp expo) hK' c hc, hlen]
+  simp [resp]
+
+/-- Each mixture probability lies in `[0, 1]` (for `n ≥ 1` individuals, non-negative exponentials with positive row sums). -/
+theorem mixtureProbs_in_unit (K : Nat) (expo : List (List α)) (hne : expo ≠ []) (hK : ∀ w ∈ expo, w.length = K)
+    (hnn : ∀ w ∈ expo, ∀ e ∈ w, 0 ≤ e) (hpos : ∀ w ∈ expo, 0 < MStep.sum w) :
+    ∀ p ∈ mixtureProbs K expo, 0 ≤ p ∧ p ≤ 1 := by
+  intro p hp
+  obtain ⟨c, hcl, rfl⟩ := List.getElem_of_mem hp
+  have hlenP : (mixtureProbs K expo).length = K := by
+    unfold mixtureProbs
+    rw [List.length_map]
+    exact colSums_length K _ (resp_row_length K expo hK)
+  have hc : c < K := hlenP ▸ hcl
+  have hget := mixtureProbs_eq_mean_resp K expo hK c hc
+  rw [List.getElem?_eq_getElem hcl] at hget
+  rw [Option.some.inj hget]
+  set col := (resp expo).filterMap (fun row => row[c]?) with hcol
+  have hlen : col.length = expo.length := by
+    rw [hcol, filterMap_col_length K (resp expo) (resp_row_length K expo hK) c hc]; simp [resp]
+  have hmem : ∀ q ∈ col, 0 ≤ q ∧ q ≤ 1 := by
+    intro q hq
+    rw [hcol, List.mem_filterMap] at hq
+    obtain ⟨row, hrow, hq⟩ := hq
+    exact resp_in_unit expo hnn hpos row hrow q (List.mem_of_getElem? hq)
+  have hn : (0 : α) < (col.length : α) := by rw [hlen]; exact length_cast_pos expo hne
+  have hb := dot_bounds 0 1 (col.map (fun _ => (1 : α))) col (by simp)
+    (by intro ri hri; simp only [List.mem_map] at hri; obtain ⟨_, _, rfl⟩ := hri; exact zero_le_one) hmem
+  have hdot : dot (col.map (fun _ => (1 : α))) col = MStep.sum col := by
+    have := sum_zipWith_const 1 (fun xi => xi) (col.map (fun _ => (1 : α))) col (by simp)
+      (by intro ri hri; simp only [List.mem_map] at hri; obtain ⟨_, _, rfl⟩ := hri; rfl)
+    simpa [dot] using this
+  have hones : MStep.sum (col.map (fun _ => (1 : α))) = (col.length : α) := by
+    rw [sum_const 1 _ (by intro ri hri; simp only [List.mem_map] at hri; obtain ⟨_, _, rfl⟩ := hri; rfl)]; simp
+  rw [hdot, hones] at hb
+  unfold mean
+  exact ⟨div_nonneg (by linarith [hb.1]) (le_of_lt hn), (div_le_one hn).mpr (by linarith [hb.2])⟩
+
+/-- **Single cluster**: the probability vector is `[1]`. -/
+theorem mixtureProbs_single_cluster (expo : List (List α)) (hne : expo ≠ []) (hK : ∀ w ∈ expo, w.length = 1)
+    (hpos : ∀ w ∈ expo, MStep.sum w ≠ 0) : mixtureProbs 1 expo = [1] := by
+  have hs := mixtureProbs_sum_one 1 expo hne hK hpos
+  have hlenP : (mixtureProbs 1 expo).length = 1 := by
+    unfold mixtureProbs
+    rw [List.length_map]
+    exact colSums_length 1 _ (resp_row_length 1 expo hK)
+  match hm : mixtureProbs 1 expo, hlenP with
+  | [p], _ =>
+    rw [hm] at hs
+    simp only [MStep.sum, add_zero] at hs
+    rw [hs]
+
+/-! #### zero total responsibility -/
+
+/-- The mean rule is defined exactly when the cluster's total responsibility is non-zero, and then it is `mixMean`. -/
+theorem mixMeanE_ok_iff (r x : List α) : (∃ v, mixMeanE r x = .ok v) ↔ MStep.sum r ≠ 0 := by
+  unfold mixMeanE divE
+  constructor
+  · rintro ⟨v, hv⟩ h0
+    rw [if_pos h0] at hv
+    split at hv <;> cases hv
+  · intro h; exact ⟨_, by rw [if_neg h]⟩
+
+theorem mixMeanE_eq (r x : List α) (hR : MStep.sum r ≠ 0) : mixMeanE r x = .ok (mixMean r x) := by
+  unfold mixMeanE divE mixMean
+  rw [if_neg hR]
+
+/-- A cluster every responsibility of which vanished (float underflow): torch computes `0/0`, the new cluster mean is
+    `nan` (no exception). -/
+theorem mixMeanE_zero_total (r x : List α) (h : r.length = x.length) (hr : ∀ ri ∈ r, ri = 0) :
+    mixMeanE r x = .error .nan := by
+  have h1 : MStep.sum r = 0 := by rw [sum_const 0 r hr]; simp
+  have h2 : dot r x = 0 := by
+    have := sum_zipWith_const 0 (fun xi => xi) r x h hr
+    simpa [dot] using this
+  unfold mixMeanE divE
+  rw [if_pos h1, if_pos h2]
+
+/-- For non-negative responsibilities "non-zero total" is "positive total" is "some individual has a positive
+    responsibility for the cluster". -/
+theorem total_resp_pos_iff (r : List α) (hr : ∀ ri ∈ r, 0 ≤ ri) :
+    (MStep.sum r ≠ 0 ↔ 0 < MStep.sum r) ∧ (0 < MStep.sum r ↔ ∃ ri ∈ r, 0 < ri) := by
+  have hnn := sum_nonneg_of r hr
+  refine ⟨⟨fun h => lt_of_le_of_ne hnn (Ne.symm h), fun h => ne_of_gt h⟩, ?_⟩
+  constructor
+  · intro hpos
+    by_contra hno
+    have hz : ∀ ri ∈ r, ri = 0 := fun ri hri =>
+      le_antisymm (le_of_not_gt fun h => hno ⟨ri, hri, h⟩) (hr ri hri)
+    rw [sum_const 0 r hz] at hpos
+    simp at hpos
+  · rintro ⟨ri, hri, hpos⟩
+    clear hnn
+    induction r with
+    | nil => simp at hri
+    | cons a r ih =>
+      rw [sum_cons]
+      have ha := hr a List.mem_cons_self
+      have hrest := sum_nonneg_of r (fun y hy => hr y (List.mem_cons_of_mem _ hy))
+      rcases List.mem_cons.mp hri with rfl | hri'
+      · linarith
+      · have := ih (fun y hy => hr y (List.mem_cons_of_mem _ hy)) hri'
+        linarith
+
+/-- The std rule yields a number exactly when the variance it computed is non-negative and the cluster's total
+    responsibility is non-zero (otherwise `nan`, silently). -/
+theorem mixStdVarE_ok_iff (r : List α) (v : α) : (∃ w, mixStdVarE r v = .ok w) ↔ (0 ≤ v ∧ MStep.sum r ≠ 0) := by
+  unfold mixStdVarE
+  constructor
+  · rintro ⟨w, hw⟩
+    split at hw
+    · cases hw
+    · rename_i hv
+      split at hw
+      · cases hw
+      · rename_i hR; exact ⟨le_of_not_gt hv, hR⟩
+  · rintro ⟨hv, hR⟩
+    exact ⟨v, by rw [if_neg (not_lt.mpr hv), if_neg hR]⟩
+
+private theorem collect_ok_iff {β : Type} (l : List (Except MErr β)) :
+    (∃ v, collect l = .ok v) ↔ ∀ e ∈ l, ∃ w, e = .ok w := by
+  induction l with
+  | nil => simp [collect]
+  | cons e l ih =>
+    cases e with
+    | error err => simp [collect]
+    | ok w =>
+      simp only [collect, List.mem_cons, forall_eq_or_imp]
+      constructor
+      · rintro ⟨v, hv⟩
+        cases hc : collect l with
+        | error err => rw [hc] at hv; cases hv
+        | ok t => exact ⟨⟨w, rfl⟩, ih.mp ⟨t, hc⟩⟩
+      · rintro ⟨_, hall⟩
+        obtain ⟨t, ht⟩ := ih.mpr hall
+        exact ⟨w :: t, by rw [ht]; rfl⟩
+
+/-- **Well-definedness of the mean rule for a whole variable** (any number of coordinates `≥ 1` and clusters): all the
+    new cluster means are numbers iff *every* cluster has a non-zero (= positive, `total_resp_pos_iff`) total
+    responsibility; otherwise the parameter tensor silently receives `nan`. -/
+theorem mixMeans_defined_iff (rcols xcols : List (List α)) (hx : xcols ≠ []) :
+    (∃ v, mixMeans rcols xcols = .ok v) ↔ ∀ rc ∈ rcols, MStep.sum rc ≠ 0 := by
+  have inner : ∀ xc : List α, (∃ v, collect (rcols.map (fun rc => mixMeanE rc xc)) = .ok v) ↔ ∀ rc ∈ rcols, MStep.sum rc ≠ 0 := by
+    intro xc
+    rw [collect_ok_iff]
+    simp only [List.mem_map, forall_exists_index, and_imp, forall_apply_eq_imp_iff₂]
+    exact forall₂_congr fun rc _ => mixMeanE_ok_iff rc xc
+  unfold mixMeans
+  constructor
+  · rintro ⟨v, hv⟩
+    cases hc : collect (xcols.map (fun xc => collect (rcols.map (fun rc => mixMeanE rc xc)))) with
+    | error err => rw [hc] at hv; cases hv
+    | ok t =>
+      have hall := (collect_ok_iff _).mp ⟨t, hc⟩
+      obtain ⟨xc, xs, rfl⟩ := List.exists_cons_of_ne_nil hx
+      exact (inner xc).mp (hall _ (by simp))
+  · intro hall
+    have : ∃ t, collect (xcols.map (fun xc => collect (rcols.map (fun rc => mixMeanE rc xc)))) = .ok t := by
+      rw [collect_ok_iff]
+      intro e he
+      simp only [List.mem_map] at he
+      obtain ⟨xc, _, rfl⟩ := he
+      exact (inner xc).mpr hall
+    obtain ⟨t, ht⟩ := this
+    exact ⟨t.flatten, by rw [ht]; rfl⟩
+
+/-- With *exact* exponentials (all positive) the situation cannot arise: every cluster has a positive total
+    responsibility, for any `n ≥ 1`.  Only floating-point underflow of `exp` empties a cluster; the clamp at `-100`
+    bounds the ratio of two exponentials of a row by `e^{100 + max(-nll)}`. -/
+theorem resp_total_pos (K : Nat) (expo : List (List α)) (hne : expo ≠ []) (hK : ∀ w ∈ expo, w.length = K)
+    (hpos : ∀ w ∈ expo, ∀ e ∈ w, 0 < e) (c : Nat) (hc : c < K) :
+    0 < MStep.sum ((resp expo).filterMap (fun row => row[c]?)) := by
+  have hK' := resp_row_length K expo hK
+  apply sum_pos_of
+  · intro hnil
+    have := filterMap_col_length K (resp expo) hK' c hc
+    rw [hnil] at this
+    simp only [resp, List.length_nil, List.length_map] at this
+    exact hne (List.eq_nil_of_length_eq_zero this.symm)
+  · intro q hq
+    rw [List.mem_filterMap] at hq
+    obtain ⟨row, hrow, hq⟩ := hq
+    have hqm := List.mem_of_getElem? hq
+    unfold resp at hrow
+    simp only [List.mem_map] at hrow
+    obtain ⟨w, hw, rfl⟩ := hrow
+    unfold softmaxRow at hqm
+    simp only [List.mem_map] at hqm
+    obtain ⟨e, he, rfl⟩ := hqm
+    have hwne : w ≠ [] := by intro h; rw [h] at he; simp at he
+    exact div_pos (hpos w hw e he) (sum_pos_of w hwne (hpos w hw))
+
+/-- Witness: two individuals whose exponentials for the second cluster underflowed to `0`: `probs` is still a
+    probability vector, the mean of the emptied cluster is `nan`, its std as well. -/
+theorem emptied_cluster_example :
+    let pre : MixPre Rat := ⟨[("tau_mean", [0, 10])], [("tau", [[1], [3]])], [[1, 0], [1, 0]]⟩
+    let S : Stats Rat := ⟨[("tau", [[1], [3]]), ("tau_sqr", [[1], [9]])], none⟩
+    (MixRule.probs 2).apply false pre S = .ok [1, 0] ∧
+    (MixRule.mixMean "tau").apply false pre S = .error .nan ∧
+    (MixRule.mixStd "tau").apply false pre S = .error .nan ∧
+    (MixRule.mixMean "tau").apply false { pre with expo := [[1, 1/2], [1, 1/4]] } S = .ok [23/11, 7/4] := by
+  decide +kernel
+
+/-! #### the mixture rules read only pre-step quantities -/
+
+/-- Every updated value of the mixture step is its rule applied to the **pre-step** state (parameters, latent values,
+    responsibilities computed from them) and the statistics. -/
+theorem mixStep_reads_old (burnIn : Bool) (pre : MixPre α) (S : Stats α) (rules : List (String × MixRule α))
+    (n : String) (v : Except MErr (List α)) :
+    (n, v) ∈ mixStep burnIn pre S rules ↔ ∃ r, (n, r) ∈ rules ∧ v = r.apply burnIn pre S := by
+  unfold mixStep
+  rw [updateAll_reads_old]
+  simp only [List.mem_map, Prod.mk.injEq]
+  constructor
+  · rintro ⟨f, ⟨⟨n', r⟩, hmem, rfl, rfl⟩, rfl⟩; exact ⟨r, hmem, rfl⟩
+  · rintro ⟨r, hmem, rfl⟩; exact ⟨_, ⟨(n, r), hmem, rfl, rfl⟩, rfl⟩
+
+theorem mixStep_order_irrelevant (burnIn : Bool) (pre : MixPre α) (S : Stats α) (rules rules' : List (String × MixRule α))
+    (h : rules.Perm rules') : (mixStep burnIn pre S rules).Perm (mixStep burnIn pre S rules') := by
+  unfold mixStep
+  exact updateAll_order_irrelevant pre S _ _ (h.map _)
+
+/-- The mean and probability rules do not read the sufficient statistics at all (in particular not their
+    stochastic-approximation average): they are functions of the current latent values and responsibilities only,
+    in every phase. -/
+theorem mixMean_ignores_stats (b b' : Bool) (var : String) (pre : MixPre α) (S S' : Stats α) :
+    (MixRule.mixMean var).apply b pre S = (MixRule.mixMean var).apply b' pre S' := rfl
+
+theorem mixProbs_ignores_stats (b b' : Bool) (K : Nat) (pre : MixPre α) (S S' : Stats α) :
+    (MixRule.probs K).apply b pre S = (MixRule.probs K).apply b' pre S' := rfl
+
+/-- After the memory-less phase the std rule reads the statistics, the pre-step cluster means and the
+    responsibilities — not the current latent values. -/
+theorem mixStd_ignores_latents (var : String) (pre pre' : MixPre α) (S : Stats α)
+    (hp : pre.params = pre'.params) (he : pre.expo = pre'.expo) :
+    (MixRule.mixStd var).apply false pre S = (MixRule.mixStd var).apply false pre' S := by
+  simp only [MixRule.apply, hp, he]
+  rfl
+
+/-- A sequential update would differ for the mixture rule set too: with `tau_mean` assigned first the `tau_std` rule
+    would be centred on the *new* cluster means (`23/11`, `7/4`) instead of the pre-step ones (`0`, `10`). -/
+theorem mixSeq_differs :
+    let S : Stats Rat := ⟨[("tau", [[1], [3]]), ("tau_sqr", [[1], [9]])], none⟩
+    let pre : MixPre Rat := ⟨[("tau_mean", [0, 10])], [("tau", [[1], [3]])], [[1, 1/2], [1, 1/4]]⟩
+    let rules : List (String × MixRule Rat) := [("tau_mean", .mixMean "tau"), ("tau_std", .mixStd "tau")]
+    let fs := rules.map (fun nr => (nr.1, fun (o : MixPre Rat) (s : Stats Rat) => nr.2.apply false o s))
+    let set := fun (o : MixPre Rat) (n : String) (v : Except MErr (List Rat)) =>
+      match v with
+      | .ok x => { o with params := (n, x) :: o.params }
+      | .error _ => o
+    updateAll pre S fs = [("tau_mean", .ok [23/11, 7/4]), ("tau_std", .ok [5, 65])] ∧
+    updateSeq set S pre fs = [("tau_mean", .ok [23/11, 7/4]), ("tau_std", .ok [122/121, 17/16])] := by
+  decide +kernel
+
+/-! #### non-vacuity -/
+
+example : mixMean ([1/2, 1/4] : List Rat) [1, 3] = 5/3 := by decide +kernel
+example : wsqdev ([1/2, 1/4] : List Rat) [1, 3] (5/3) = 2/3 := by decide +kernel
+example : mixAvgConst ([1/2, 1/4] : List Rat) 7 = 7 := by decide +kernel
+example : mixVarDoc ([1/2, 1/4] : List Rat) [1, 3] 0 = 11/3 ∧ mixVar (0 : Rat) [1, 3] [1, 9] = 5 := by decide +kernel
 
 end LeaspyVerif.C04
